@@ -571,7 +571,7 @@ type Line struct {
 var clauseKeywords = map[string]bool{
 	"func": true, "closure": true, "interface": true, "extern": true,
 	"property": true, "trusted": true, "pure": true, "effect": true, "inline": true,
-	"requires": true, "ensures": true, "modifies": true,
+	"requires": true, "ensures": true, "ensures_here": true, "modifies": true,
 	"loop": true, "invariant": true, "decreases": true, "unordered": true,
 	"spec": true, "axiom": true, "lemma": true, "sort": true, "witness": true, "uses": true, "induction": true, "ghost": true, "deterministic": true, "reports_all": true, "global": true, "global_assumed": true,
 }
@@ -683,11 +683,16 @@ func ParseLines(pkg, path string, lines []Line) (*File, error) {
 			if cur != nil {
 				cur.Witnesses = append(cur.Witnesses, rest)
 			}
-		case "requires", "ensures", "invariant", "decreases":
+		case "requires", "ensures", "ensures_here", "invariant", "decreases":
+			here := l.kw == "ensures_here"
+			if here {
+				l.kw = "ensures"
+			}
 			c, err := parseClause(l.kw, rest, l.pos)
 			if err != nil {
 				return nil, err
 			}
+			c.Local = here
 			switch {
 			case curLemma != nil:
 				if l.kw == "requires" {
